@@ -153,9 +153,9 @@ Over(lim, x) == (IF lim.cpu >= 0 /\ x.cpu > lim.cpu THEN "cpu" ELSE "") \o (IF l
 Counted(n, pool) == n.pool = pool /\ Alive(n)
 PoolUsage(cfg, nodes, pool, capOf(_, _)) ==
     SumSeq3([i \in DOMAIN nodes |-> IF Counted(nodes[i], pool) /\ HasType(cfg, nodes[i]) THEN capOf(NType(cfg, nodes[i]), NOff(cfg, nodes[i])) ELSE Zero3])
-(* Inv_C03_PoolCapacity: the total capacity of the pool's nodes that are    *)
+(* Inv_C03_PoolCapacity (PoolCapacityOK): the total capacity of the pool's nodes that are    *)
 (* not being deleted is within the pool's limits.                           *)
-Inv_C03_PoolCapacity(cfg, nodes, pool, lim) == Within(lim, PoolUsage(cfg, nodes, pool, Cap))
+PoolCapacityOK(cfg, nodes, pool, lim) == Within(lim, PoolUsage(cfg, nodes, pool, Cap))
 \* witness class: which resource, and whether only capacity-override offerings push it over
 SigCapacity(cfg, nodes, pool, lim) ==
     Over(lim, PoolUsage(cfg, nodes, pool, Cap)) \o (IF Within(lim, PoolUsage(cfg, nodes, pool, BaseCap)) THEN ":capacity-override-offering" ELSE "")
